@@ -26,6 +26,8 @@ def stream(ctx, n_runs, corrs, monitors, acct_types=("STOCK", "FUTURE"), gen=Non
         ctx.stats["runs"] += 1
         if tr.exc is not None:
             ctx.stats["runs_ended_by_exception:" + type(tr.exc).__name__] += 1
+            if len(ctx.notes) < 5:
+                ctx.notes.append("run ended by %s: %s" % (type(tr.exc).__name__, str(tr.exc)[:160]))
         ix = acct_sync.Index(S, cfgk)
         ops = [op for op in tr.rec.ops if op["acct"] in acct_types]
         ctx.evaluations += len(ops)
